@@ -1,0 +1,28 @@
+//! Verification hooks, compiled only with `--cfg grenad_verif`.
+//!
+//! Nothing in here changes the behaviour of the crate: it re-exports private
+//! functions and records allocation events of the sorter buffer.
+
+use std::cell::RefCell;
+
+pub use crate::varint::{varint_decode32, varint_encode32};
+
+/// An allocation event of the sorter's `EntryBoundAlignedBuffer`.
+#[derive(Debug, Clone, Copy, PartialEq, Eq)]
+pub enum AllocEvent {
+    Alloc { size: usize, align: usize, addr: usize },
+    Dealloc { size: usize, align: usize, addr: usize },
+}
+
+thread_local! {
+    static ALLOC_TRACE: RefCell<Vec<AllocEvent>> = const { RefCell::new(Vec::new()) };
+}
+
+pub(crate) fn trace(event: AllocEvent) {
+    ALLOC_TRACE.with(|t| t.borrow_mut().push(event));
+}
+
+/// Returns and clears the allocation events recorded on this thread.
+pub fn take_alloc_trace() -> Vec<AllocEvent> {
+    ALLOC_TRACE.with(|t| std::mem::take(&mut *t.borrow_mut()))
+}
